@@ -72,6 +72,10 @@ def body(ck, F, cfg):
         except Unanalysable as u:
             ck.fail("R03.2", f"decompose:{name}", f"segment cannot be aligned: {u.msg}", where, kind="unanalysable")
         off = sp.expand(off + n)
+    # relation (b)'s weights wL, wR, wO, wV, wc are the z-flattened constraints (z^(q+1) per constraint)
+    from .. import flatten
+
+    flatten.check(ck, F, "verifier", "R03.2")
     # r: squeezed from a clone forked after everything was absorbed (shared with C06 R06.7)
     side = C06.clone_side_table(I)
     okc = len(side["forks"]) == 1 and [(k, l) for k, l, _ in side["clone_ops"]] == [("challenge_bytes", b"r")] and not side["main_ops_after_fork"]
